@@ -222,6 +222,25 @@ func (w *World) do(op Op) string {
 		return errs(s.FlushRevert())
 	case "reopen":
 		return w.reopen()
+	case "junk":
+		// crash debris: bytes that are not a root record appear after the end of the file
+		// (as after a torn write), then the file is opened again
+		if w.File == nil {
+			return "nofile"
+		}
+		r := NewRng(uint64(op.Prio) + 99)
+		n := op.N
+		j := make([]byte, n)
+		for i := range j {
+			j[i] = byte(r.Intn(256))
+		}
+		if n >= 12 && r.Chance(1, 2) {
+			copy(j[n-12:], "3e4a5p3e4a5p") // looks like the end of a root record, but is not one
+		}
+		w.File.mu.Lock()
+		w.File.data = append(w.File.data, j...)
+		w.File.mu.Unlock()
+		return w.reopen()
 	case "snap":
 		sn := s.Snapshot()
 		var ref *RefStore
@@ -306,6 +325,69 @@ func (w *World) do(op Op) string {
 			err = c.VisitItemsDescendEx(op.Key, op.WV, vis)
 		}
 		return visObs(vs, op.WV, true, err)
+	case "nasc", "ndesc":
+		// a visit whose visitor, at its first delivery, runs further read operations on the
+		// same collection (a key-only visit over everything and a lookup): re-entrant reads
+		var vs []visited
+		nested := false
+		var nestedErr error
+		vis := func(i *gkvlite.Item, d uint64) bool {
+			vs = append(vs, copyItem(i, d))
+			if !nested {
+				nested = true
+				if e := c.VisitItemsAscend([]byte{}, false, func(j *gkvlite.Item) bool { return true }); e != nil {
+					nestedErr = e
+				}
+				if e := c.VisitItemsDescend([]byte{0xff, 0xff, 0xff, 0xff}, false, func(j *gkvlite.Item) bool { return true }); e != nil {
+					nestedErr = e
+				}
+				it, e := c.GetItem(i.Key, false)
+				if e != nil {
+					nestedErr = e
+				}
+				if it != nil {
+					w.release(s, c, it)
+				}
+			}
+			return op.N < 0 || len(vs) <= op.N
+		}
+		var err error
+		if op.K == "nasc" {
+			err = c.VisitItemsAscendEx(op.Key, op.WV, vis)
+		} else {
+			err = c.VisitItemsDescendEx(op.Key, op.WV, vis)
+		}
+		if err == nil {
+			err = nestedErr
+		}
+		return visObs(vs, op.WV, false, err)
+	case "nit":
+		// an iterator with another (key-only) visit running while it is open
+		it := c.IterateAscend(op.Key, op.WV)
+		before := runtime.NumGoroutine()
+		var vs []visited
+		var nitErr error
+		first := true
+		for (op.N < 0 || len(vs) <= op.N) && it.Next() {
+			vs = append(vs, copyItem(it.Result(), 0))
+			if first {
+				first = false
+				nitErr = c.VisitItemsAscend([]byte{}, false, func(j *gkvlite.Item) bool { return true })
+			}
+		}
+		it.Close()
+		deadline := time.Now().Add(3 * time.Second)
+		for runtime.NumGoroutine() >= before && before > 0 {
+			if time.Now().After(deadline) {
+				return visObs(vs, op.WV, false, it.Err()) + " producer-goroutine-still-running"
+			}
+			runtime.Gosched()
+			time.Sleep(20 * time.Microsecond)
+		}
+		if e := it.Err(); e != nil {
+			nitErr = e
+		}
+		return visObs(vs, op.WV, false, nitErr)
 	case "itasc", "itdesc":
 		var it gkvlite.ItemIterator
 		before := runtime.NumGoroutine()
@@ -415,7 +497,7 @@ func (w *World) Expect(op Op) string {
 			h.Ref = NewRefStore()
 		}
 		return "ok"
-	case "reopen":
+	case "reopen", "junk":
 		if w.File == nil {
 			return "nofile"
 		}
@@ -482,7 +564,7 @@ func (w *World) Expect(op Op) string {
 		return fmt.Sprintf("t:%d:%d", n, b)
 	case "evict":
 		return "ok"
-	case "asc", "itasc", "ascx":
+	case "asc", "itasc", "ascx", "nasc", "nit":
 		var vs []visited
 		for _, it := range c.Items {
 			if cmp(op.Key, it.Key) <= 0 {
@@ -493,7 +575,7 @@ func (w *World) Expect(op Op) string {
 			}
 		}
 		return visObs(vs, op.WV, false, nil)
-	case "desc", "itdesc", "descx":
+	case "desc", "itdesc", "descx", "ndesc":
 		var vs []visited
 		for j := len(c.Items) - 1; j >= 0; j-- {
 			it := c.Items[j]
